@@ -8,6 +8,7 @@ from checks.serverfam import *
 from checks.c07 import mk_pool, mk_addr
 from checks import fromconfig as FC
 from mirsym.models.misc import digest_bytes
+from mirsym.models.util import ok, err
 from native import oracle
 
 AUTH_OK = [ord('R'), 0, 0, 0, 8, 0, 0, 0, 0]
@@ -26,6 +27,16 @@ def md5_answer(user, password, salt):
     inner = digest_bytes('md5', [BV(8, b) for b in password.encode()] + [BV(8, b) for b in user.encode()], 16)
     outer = digest_bytes('md5', hex32(inner) + list(salt), 16)
     return [BV(8, b) for b in b'md5'] + hex32(outer) + [BV(8, 0)]
+
+
+def md5_second_pass_answer(hash_bytes, salt):
+    """auth_query: the stored secret is already md5(password || user) in hex; the answer is 'md5' || hex(md5(that || salt))."""
+    outer = digest_bytes('md5', [BV(8, b) for b in hash_bytes] + list(salt), 16)
+    return [BV(8, b) for b in b'md5'] + hex32(outer) + [BV(8, 0)]
+
+
+H_CACHED = b'c0' * 16
+H_FETCHED = b'f1' * 16
 
 
 def startup_bytes(user, db):
@@ -83,6 +94,28 @@ def o1_startup(chk, prog, user, db, resp_len, pool_kind, admin_only):
             setf(prog, usr, 'User', 'username', rstring(user))
             setf(prog, usr, 'User', 'password', some(ip_, rstring('secret')))
             setf(prog, usr, 'User', 'auth_type', ip_.make_enum('AuthType', 'Trust' if pool_kind == 'trust' else 'MD5'))
+            if pool_kind.startswith('authquery'):
+                # no cleartext password: the secret is the MD5 hash obtained through auth_query -- cached in the pool (pool built while
+                # PostgreSQL was reachable) or still missing (fetched during this login); a refetch may succeed (with whatever hash the
+                # server holds NOW) or fail: solver's choice
+                setf(prog, usr, 'User', 'password', none(ip_))
+                cached = pool_kind == 'authquery-cached'
+                setf(prog, pool, 'ConnectionPool', 'auth_hash', Ptr(Cell(Agg([some(ip_, rstring(H_CACHED.decode())) if cached else none(ip_)], 'Lock'), 'auth_hash')))
+                ip_.overrides.append((re.compile(r'Config::is_auth_query_configured$'), lambda c, *a: BV(1, 1)))
+                fetches = ip_.env.setdefault('fetches', [])
+
+                def refetch(c, p):
+                    return Opaque('HookFuture', 'refetch')
+                ip_.overrides.append((re.compile(r'^(?:auth_passthrough::)?refetch_auth_hash$'), refetch))
+
+                def poll_hook(ip2, co, ptr):
+                    if isinstance(co, Opaque) and co.ty == 'HookFuture' and co.tag == 'refetch':
+                        okk = ip2.choose(2, 'refetch_ok') == 1
+                        fetches.append(okk)
+                        r_ = ok(ip2, rstring(H_FETCHED.decode())) if okk else err(ip2, ip2.make_enum('Error', 'ClientBadStartup'))
+                        return EnumV(BV(64, 0), {'Ready': [r_]}, 'Poll')
+                    raise Inconclusive('poll of %r' % (co,))
+                ip_.poll_hook = poll_hook
 
         def get_pool(c, dbp, up):
             dbs = bytes(b.v for b in items(c.ip, dbp)).decode()
@@ -124,7 +157,16 @@ def o1_startup(chk, prog, user, db, resp_len, pool_kind, admin_only):
             secret_user, secret_pw = user, 'secret'
             who_ok = True
         allowed_shutdown = admin_db or not admin_only
-        if exists and allowed_shutdown and not trust:
+        if exists and allowed_shutdown and not trust and pool_kind.startswith('authquery'):
+            # the answer must be the MD5 answer over a hash the pooler legitimately holds: the cached one, or one a refetch returned
+            cred = False
+            if salt is not None:
+                hs = ([H_CACHED] if pool_kind == 'authquery-cached' else []) + ([H_FETCHED] if any(ip_.env.get('fetches', [])) else [])
+                for h_ in hs:
+                    ref = md5_second_pass_answer(h_, salt)
+                    if len(ref) == len(resp) and decide(ip_, z3.And(code.z() == ord('p'), *[a.z() == b.z() for a, b in zip(resp, ref)])):
+                        cred = True
+        elif exists and allowed_shutdown and not trust:
             if salt is None:
                 cred = False
             else:
@@ -149,7 +191,7 @@ def o1_startup(chk, prog, user, db, resp_len, pool_kind, admin_only):
             rep('C09/O1/admitted-without-credentials/%s' % ('admin' if admin_db else pool_kind), 'client %s@%s is admitted although %s (response of %d bytes)' % (user, db, why, resp_len))
         if sent_ok != admitted:
             rep('C09/O1/auth-ok-mismatch', 'AuthenticationOk %s although startup %s' % ('sent' if sent_ok else 'not sent', 'succeeded' if admitted else 'failed'))
-        if may and not admitted:
+        if may and not admitted and not pool_kind.startswith('authquery'):
             rep('C09/O1/valid-credentials-refused', 'client %s@%s presents valid credentials but is refused' % (user, db))
         if len(ob.samples) < 2:
             ob.samples.append({'admitted': admitted, 'may': may, 'bytes_to_client': len(out)})
@@ -172,7 +214,7 @@ def main(chk):
         'over the configured secret and the salt issued on this connection.')
     chk.assumptions += [
         'MD5 is an uninterpreted function (collisions outside the claim); salt unpredictability, TLS and the auth_query network exchange are outside the claim',
-        'cleartext-password pools and the admin database; auth_query (pass-through) hashes are not exercised',
+        'cleartext-password pools, the admin database, and auth_query pools (secret = an MD5 hash cached in the pool or fetched during the login; the refetch itself -- a query on a server -- is a stub that succeeds with some hash or fails, by the solver\'s choice)',
         'std String / Option / BTreeMap equality and hashing are structural; DefaultHasher maps different write sequences to different values (collisions outside the claim)',
     ]
     prog = chk.program('on')
@@ -188,6 +230,9 @@ def main(chk):
     tasks.append((o1_startup, (prog, 'u', 'db', 0, 'trust', True)))
     tasks.append((o1_startup, (prog, 'admin', 'pgbouncer', 36, 'none', True)))
     tasks.append((o1_startup, (prog, 'u', None, 36, 'none', False)))
+    for ln in (0, 36):
+        tasks.append((o1_startup, (prog, 'u', 'db', ln, 'authquery-cached', False)))
+        tasks.append((o1_startup, (prog, 'u', 'db', ln, 'authquery-fetch', False)))
     chk.parallel(_dispatch, tasks)
     # "the configured secret" is the one in the file in force: a reload that changes a user's password / auth_type / name must replace the
     # pool the old values were baked into -- which it does iff the User definition's identity (PartialEq for the reload gate, Hash for pool
